@@ -28,7 +28,7 @@ import shutil
 import sys
 import time
 
-from common import (REPO, MachineryError, classify, finish, parse_printed, pmap, run_tlc, seed, subdir, tier,
+from common import (REPO, VERIF, MachineryError, classify, finish, parse_printed, pmap, run_tlc, seed, subdir, tier,
                     tla_value, validate_traces, write_replay)
 
 PROP = "C19"
@@ -218,20 +218,47 @@ def finishing_ops(ops):
     return ([op("close")] if is_open else []) + [op("reopen")]
 
 
+_DATA = None
+
+
+def datadir():
+    """Scratch directory for the arrays: a RAM-backed file system when there is one (tens of thousands of
+    directories are created and removed), else the common scratch.  VERIF_C19_DATA overrides."""
+    global _DATA
+    if _DATA is None:
+        base = os.environ.get("VERIF_C19_DATA")
+        if not base and os.path.isdir("/dev/shm") and os.access("/dev/shm", os.W_OK):
+            base = "/dev/shm"
+        if base:
+            import atexit
+            import tempfile
+            _DATA = tempfile.mkdtemp(prefix="ssepy-verif-c19.%d." % os.getpid(), dir=base)
+            atexit.register(shutil.rmtree, _DATA, True)
+        else:
+            _DATA = subdir("c19-data")
+    return _DATA
+
+
 def run_case(case):
-    """case: {tid, par, ops, mode}; returns the trace {tid, par, ev}"""
-    d = os.path.join(subdir("c19-data"), "%s-%d" % (case["tid"], os.getpid()))
+    """case: {tid, par, ops, mode}; returns the trace {tid, par, ev}.
+
+    mode full: full read after every operation.
+    mode lazy: no intermediate reads; finally close + reopen + full read.
+    mode last: no reads before the last operation (the one under test in a transition-covering history);
+               full read through the handle after it, then close + reopen + full read."""
+    d = os.path.join(datadir(), "%s-%d" % (case["tid"], os.getpid()))
     shutil.rmtree(d, ignore_errors=True)
     os.makedirs(d)
     rn = Runner(case["par"], d)
     ev = []
     try:
-        full = case["mode"] == "full"
-        ev.append(rn.step(op("create"), True))
-        for o in case["ops"]:
-            ev.append(rn.step(o, full))
-        if not full:
-            fin = finishing_ops(case["ops"])
+        mode = case["mode"]
+        ops = case["ops"]
+        ev.append(rn.step(op("create"), mode == "full"))
+        for k, o in enumerate(ops):
+            ev.append(rn.step(o, mode == "full" or (mode == "last" and k == len(ops) - 1)))
+        if mode != "full":
+            fin = finishing_ops(ops)
             for k, o in enumerate(fin):
                 ev.append(rn.step(o, k == len(fin) - 1))
     finally:
@@ -250,12 +277,13 @@ INVARIANTS = ["Emit", "TypeOK", "ClosedRaises", "FailKeeps", "SliceSetBound", "P
 def tlc_histories(tr):
     """Transition-covering histories from MC_PArray; returns (cases, TLCResult, info)."""
     if tr == "quick":
-        maxlen, svi, wsvi = 3, "SV_tiny", "SV_small"
+        k = dict(maxlen=3, base="SL_small", wide="SL_mid", lists="VL_small", wlists="WVL_small", wfresh="FALSE")
     else:
-        maxlen, svi, wsvi = 4, "SV_tiny", "SV_full"
-    cfg = ("CONSTANTS MaxLen = %d\nSVI <- %s\nWSVI <- %s\nEmitOn = TRUE\nSPECIFICATION MCSpec\nVIEW MCView\n" % (maxlen, svi, wsvi)
+        k = dict(maxlen=4, base="SL_small", wide="SL_full", lists="VL_full", wlists="WVL_full", wfresh="TRUE")
+    cfg = ("CONSTANTS MaxLen = %(maxlen)d\nBaseSl <- %(base)s\nWideSl <- %(wide)s\nBaseLists <- %(lists)s\n"
+           "WideLists <- %(wlists)s\nWideFresh = %(wfresh)s\nEmitOn = TRUE\nSPECIFICATION MCSpec\nVIEW MCView\n" % k
            + "".join("INVARIANT %s\n" % i for i in INVARIANTS) + "PROPERTY LenConst\nCHECK_DEADLOCK FALSE\n")
-    r = run_tlc("MC_PArray", cfg, workers=min(16, os.cpu_count() or 4), coverage=True, timeout=900)
+    r = run_tlc("MC_PArray", cfg, workers=min(8, os.cpu_count() or 4), coverage=True, timeout=900)
     alpha = {}
 
     def tv(raw):        # TLC's pretty printer may break the line after "|->"; tla_value expects one space
@@ -285,7 +313,7 @@ def tlc_histories(tr):
     per_op = {}
     for _p, h in hists:
         per_op[h[-1]["op"]] = per_op.get(h[-1]["op"], 0) + 1
-    info = {"maxlen": maxlen, "svi": svi, "wsvi": wsvi, "per_op": per_op,
+    info = {"constants": k, "histories_per_last_operation": per_op,
             "abstract_states": len(states), "max_history": max(len(h) for _p, h in hists)}
     return hists, r, info
 
@@ -405,15 +433,14 @@ def pyslice_traces(tr, rnd):
     return traces, total
 
 
-def check_pyslice(tr, rnd):
-    traces, total = pyslice_traces(tr, rnd)
+def check_pyslice(traces):
     verdicts, _agg = validate_traces("Trace_PySlice", traces, shards=len(traces), name="pyslice")
     bad = [(t["tid"], verdicts[t["tid"]]) for t in traces if not verdicts[t["tid"]]["ok"]]
     if bad:
         tid, v = bad[0]
         ev = [t for t in traces if t["tid"] == tid][0]["ev"][v["step"] - 1]
         raise MachineryError("PySlice.tla disagrees with CPython on %r (trace %s step %d)" % (ev, tid, v["step"]))
-    return total
+    return True
 
 
 # ---------------------------------------------------------------------------
@@ -439,7 +466,7 @@ def check_layer_b(tr):
     as writes always did) must pass; FALSE (as first published) must violate every one of Refines, FilesInv and
     CacheSane: the model-level check is sensitive to exactly the defect class the property is about."""
     maxlen = 3 if tr == "quick" else 4
-    nw = min(16, os.cpu_count() or 4)
+    nw = min(8, os.cpu_count() or 4)
 
     def cfg(ml, variant, invs):
         return ("CONSTANTS MaxLenB = %d\nNormaliseReads = %s\nSPECIFICATION SpecB\n" % (ml, variant)
@@ -489,14 +516,19 @@ def canon(par, ops):
 
 
 def validate(traces):
+    # many short-lived JVMs: a few thousand traces per JVM amortise the start-up; more shards only add load
+    shards = max(1, min(8, os.cpu_count() or 4, len(traces) // 2000))
     return validate_traces("Trace_PArray", [{"tid": t["tid"], "par": t["par"], "ev": t["ev"]} for t in traces],
-                           timeout=2400)
+                           timeout=3000, shards=shards)
 
 
 def main(argv_tier=None, replay_path=None):
     t0 = time.time()
     tr = tier(argv_tier)
     impl()
+    # the TLC runs of this check are many and short: C1-only compilation and few GC threads cut their CPU cost
+    # several times (measured: 16k traces 130 s -> 20 s of CPU); an explicit JAVA_TOOL_OPTIONS wins
+    os.environ.setdefault("JAVA_TOOL_OPTIONS", "-XX:TieredStopAtLevel=1 -XX:ParallelGCThreads=2 -Xmx4g")
     if replay_path:
         with open(replay_path) as fh:
             rp = json.load(fh)
@@ -508,15 +540,23 @@ def main(argv_tier=None, replay_path=None):
         print(verdicts)
         return 0 if verdicts["replay"]["ok"] else 1
 
+    rdir = os.path.join(VERIF, "replays")
+    for f in (os.listdir(rdir) if os.path.isdir(rdir) else []):
+        if f.startswith(PROP + "-"):        # replays written by an earlier run of this check are stale
+            os.unlink(os.path.join(rdir, f))
     rnd = random.Random(seed() * 7919 + 19)
-    n_slice_calls = check_pyslice(tr, rnd)
+    # the TLC-only tasks run side by side: PySlice vs CPython, the generator, and Layer B (joined at the end)
+    from concurrent.futures import ThreadPoolExecutor
+    subdir("tlc")
+    sl_traces, n_slice_calls = pyslice_traces(tr, rnd)
+    pool = ThreadPoolExecutor(3)
+    f_sl = pool.submit(check_pyslice, sl_traces)
+    f_lb = pool.submit(check_layer_b, tr)
     hists, r, info = tlc_histories(tr)
-    lb_good, lb_acts, lb_old = check_layer_b(tr)
 
     cases = []
     for k, (par, ops) in enumerate(hists):
-        for mode in ("full", "lazy"):
-            cases.append({"tid": "t%d%s" % (k, mode[0]), "par": par, "ops": ops, "mode": mode, "src": "tlc"})
+        cases.append({"tid": "t%d" % k, "par": par, "ops": ops, "mode": "last", "src": "tlc"})
     nrand = 400 if tr == "quick" else 6000
     for k in range(nrand):
         par, ops = rand_history(rnd)
@@ -528,6 +568,10 @@ def main(argv_tier=None, replay_path=None):
     t2 = time.time()
     verdicts, agg = validate(traces)
     t3 = time.time()
+    f_sl.result()
+    lb_good, lb_acts, lb_old = f_lb.result()
+    pool.shutdown()
+    t4 = time.time()
 
     rej, drift = [], {}
     for c, t in zip(cases, traces):
@@ -553,8 +597,9 @@ def main(argv_tier=None, replay_path=None):
         c = x["case"]
         p = write_replay(PROP, c["tid"], {"par": c["par"], "ops": c["ops"], "mode": c["mode"], "events": x["trace"]["ev"],
                                          "verdict": x["verdict"], "seed": seed(), "history": canon(c["par"], c["ops"])})
+        h = canon(c["par"], c["ops"])
         vio_out.append(("step %d %s mode=%s %s" % (x["verdict"]["step"], x["verdict"]["clause"], c["mode"],
-                                                   canon(c["par"], c["ops"])), p))
+                                                   h if len(h) < 240 else h[:240] + " ..."), p))
     n_viol = len(viol)
     by_clause = {}
     for x in viol:
@@ -582,16 +627,19 @@ def main(argv_tier=None, replay_path=None):
         "tlc_histories": len(hists), "random_histories": nrand,
         "evaluations": len(traces), "distinct_nontrivial": len(distinct),
         "rule": "every transition of MC_PArray (n<=%d, pf in 1..n+2, item size 2, values A/B/Z/oversized/non-bytes, indices "
-                "-n-1..n, slices over {None}+%s at every state and {None}+%s at the seed states) as shortest history + "
-                "operation, plus %d seeded random histories of length 40 (n 1..40, item size 1..9, pf 1..n+2); every history "
-                "run in mode full and mode lazy; non-trivial = at least one successful write with a value and a successful "
-                "read or full read after it; distinct by (parameters, operations, mode)" % (info["maxlen"], info["svi"], info["wsvi"], nrand),
+                "-n-1..n, slices %s x lists %s at every state and %s x %s at the seed states) as shortest history + operation, "
+                "run in mode last; plus %d seeded random histories of length 40 (n 1..40, item size 1..9, pf 1..n+2) run in mode "
+                "full and in mode lazy; non-trivial = at least one successful write with a value and a successful "
+                "read or full read after it; distinct by (parameters, operations, mode)"
+                % (info["constants"]["maxlen"], info["constants"]["base"], info["constants"]["lists"],
+                   info["constants"]["wide"], info["constants"]["wlists"], nrand),
         "exhaustive": True,
         "samples": [{"history": canon(cases[i]["par"], cases[i]["ops"]), "mode": cases[i]["mode"],
                      "events": traces[i]["ev"][:6]} for i in sample_ix],
         "drift": {k: len(v) for k, v in drift.items()},
         "rejections_by_clause": by_clause,
-        "timing_s": {"replay": round(t2 - t1, 1), "trace_validation": round(t3 - t2, 1)},
+        "timing_s": {"tlc_generator": round(t1 - t0, 1), "replay": round(t2 - t1, 1), "trace_validation": round(t3 - t2, 1),
+                     "waiting_for_layer_b": round(t4 - t3, 1)},
         "model": "spec/store/PArray.tla via MC_PArray; PArrayImpl (Layer B); trace spec Trace_PArray; PySlice via Trace_PySlice",
     }
     out = finish(PROP, tr, t0, cov, vio_out, seen, assumptions=[
